@@ -310,68 +310,94 @@ func retryAltLoops(w *World, o *Options, encs []*Enc, obls []*Obligation, workDi
 		if e == nil || e.c == nil || len(e.c.AltLoops) == 0 || e.fn == nil {
 			continue
 		}
-		bad := false
-		for _, ob := range obls {
-			if ob.enc == e && ob.Status != "discharged" {
-				bad = true
-			}
-		}
-		if !bad {
-			continue
-		}
-		c2 := *e.c
-		// the alternative set replaces the clauses of the loops it names; the other loops keep their primary clauses
-		merged := map[int]*LoopSpec{}
-		for k, l := range e.c.Loops {
-			merged[k] = l
-		}
-		for k, l := range e.c.AltLoops {
-			merged[k] = l
-		}
-		c2.Loops, c2.AltLoops = merged, nil
-		e2 := encodeFunction(w, e.fn, &c2)
-		var obls2 []*Obligation
-		for _, ob := range e2.obls {
-			if hasProp(ob.Props, o.property) {
-				obls2 = append(obls2, ob)
-			}
-		}
-		solveAll(obls2, workDir, o.timeoutMs, o.tier == "thorough", par)
-		bad1, bad2 := 0, 0
+		bad1 := 0
 		for _, ob := range obls {
 			if ob.enc == e && ob.Status != "discharged" {
 				bad1++
 			}
 		}
-		leftSubset := false
-		for _, ob := range obls2 {
-			if ob.Status != "discharged" {
-				bad2++
-				// an alternative set that does not even fit the body (its encoding stops at #subset: one open
-				// obligation standing for all) is never "closer" than the primary set
-				if strings.Contains(ob.Name, "#subset") {
-					leftSubset = true
-				}
-			}
-		}
-		if len(obls2) == 0 || bad2 >= bad1 || leftSubset {
+		if bad1 == 0 {
 			continue
 		}
-		if bad2 == 0 {
+		// the alternative clauses replace those of the loops they name, the other loops keep their primary
+		// clauses; with alternatives on several loops every non-empty subset is a candidate (all of them first):
+		// one loop of a function may have been reshaped and another not
+		var ks []int
+		for k := range e.c.AltLoops {
+			ks = append(ks, k)
+		}
+		sort.Ints(ks)
+		var subsets [][]int
+		for m := (1 << len(ks)) - 1; m >= 1; m-- {
+			var sub []int
+			for b, k := range ks {
+				if m&(1<<b) != 0 {
+					sub = append(sub, k)
+				}
+			}
+			subsets = append(subsets, sub)
+		}
+		if len(subsets) > 7 {
+			subsets = subsets[:7]
+		}
+		var bestEnc *Enc
+		var bestObls []*Obligation
+		bestBad := bad1
+		for _, sub := range subsets {
+			c2 := *e.c
+			merged := map[int]*LoopSpec{}
+			for k, l := range e.c.Loops {
+				merged[k] = l
+			}
+			for _, k := range sub {
+				merged[k] = e.c.AltLoops[k]
+			}
+			c2.Loops, c2.AltLoops = merged, nil
+			e2 := encodeFunction(w, e.fn, &c2)
+			var obls2 []*Obligation
+			for _, ob := range e2.obls {
+				if hasProp(ob.Props, o.property) {
+					obls2 = append(obls2, ob)
+				}
+			}
+			solveAll(obls2, workDir, o.timeoutMs, o.tier == "thorough", par)
+			bad2, leftSubset := 0, false
+			for _, ob := range obls2 {
+				if ob.Status != "discharged" {
+					bad2++
+					// a set that does not even fit the body (its encoding stops at #subset: one open obligation
+					// standing for all) is never "closer" than the primary set
+					if strings.Contains(ob.Name, "#subset") {
+						leftSubset = true
+					}
+				}
+			}
+			if len(obls2) == 0 || leftSubset || bad2 >= bestBad {
+				continue
+			}
+			bestEnc, bestObls, bestBad = e2, obls2, bad2
+			if bad2 == 0 {
+				break
+			}
+		}
+		if bestEnc == nil {
+			continue
+		}
+		if bestBad == 0 {
 			fmt.Fprintf(os.Stderr, "note: %s: proved under the alternative loop clauses of its contract (the primary set has no proof for the current body)\n", e.key)
 		} else {
 			// neither set has a proof: report the one that comes closer (fewer open obligations), so that
 			// the named obligations are those of the loop shape the body actually has
-			fmt.Fprintf(os.Stderr, "note: %s: neither set of loop clauses has a proof; reporting the alternative set (%d open obligations, primary %d)\n", e.key, bad2, bad1)
+			fmt.Fprintf(os.Stderr, "note: %s: neither set of loop clauses has a proof; reporting the alternative set (%d open obligations, primary %d)\n", e.key, bestBad, bad1)
 		}
-		encs[i] = e2
+		encs[i] = bestEnc
 		var keep []*Obligation
 		for _, ob := range obls {
 			if ob.enc != e {
 				keep = append(keep, ob)
 			}
 		}
-		obls = append(keep, obls2...)
+		obls = append(keep, bestObls...)
 	}
 	return encs, obls
 }
